@@ -32,6 +32,8 @@ pub uninterp spec fn r_powi(x: real, n: int) -> real;
 pub uninterp spec fn r_minv() -> real;
 pub uninterp spec fn r_maxv() -> real;
 pub uninterp spec fn r_pi() -> real;
+pub uninterp spec fn r_epsilon() -> real;
+pub uninterp spec fn r_min_positive() -> real;
 
 pub trait ToR { spec fn to_real(self) -> real; }
 impl ToR for usize { open spec fn to_real(self) -> real { self as int as real } }
@@ -66,6 +68,14 @@ impl R {
     #[verifier::external_body] pub fn tanh(self) -> (r: R) ensures r.v() == r_tanh(self.v()) { unimplemented!() }
     #[verifier::external_body] pub fn max(self, o: R) -> (r: R) ensures r.v() == (if self.v() >= o.v() { self.v() } else { o.v() }) { unimplemented!() }
     #[verifier::external_body] pub fn min(self, o: R) -> (r: R) ensures r.v() == (if self.v() <= o.v() { self.v() } else { o.v() }) { unimplemented!() }
+    // further num::Float methods a maintainer may reach for (so that such code stays inside the supported subset)
+    #[verifier::external_body] pub fn epsilon() -> (r: R) ensures r.v() == r_epsilon() { unimplemented!() }
+    #[verifier::external_body] pub fn min_positive_value() -> (r: R) ensures r.v() == r_min_positive() { unimplemented!() }
+    #[verifier::external_body] pub fn is_normal(self) -> (b: bool) ensures b == (self.v() != 0real) { unimplemented!() }
+    #[verifier::external_body] pub fn is_sign_negative(self) -> (b: bool) ensures self.v() < 0real ==> b, self.v() > 0real ==> !b { unimplemented!() }
+    #[verifier::external_body] pub fn is_sign_positive(self) -> (b: bool) ensures self.v() > 0real ==> b, self.v() < 0real ==> !b { unimplemented!() }
+    #[verifier::external_body] pub fn recip(self) -> (r: R) requires self.v() != 0real ensures r.v() == rdiv(1real, self.v()) { unimplemented!() }
+    #[verifier::external_body] pub fn mul_add(self, a: R, b: R) -> (r: R) ensures r.v() == self.v() * a.v() + b.v() { unimplemented!() }
     #[verifier::external_body] pub fn clamp(self, lo: R, hi: R) -> (r: R) requires lo.v() <= hi.v() ensures r.v() == r_clamp(self.v(), lo.v(), hi.v()) { unimplemented!() }
 }
 
@@ -145,11 +155,13 @@ pub axiom fn ax_ln_mono(x: real, y: real) ensures 0real < x <= y ==> r_ln(x) <= 
 pub axiom fn ax_ln_inv(x: real) ensures x > 0real ==> r_ln(1real / x) == -r_ln(x);
 pub axiom fn ax_ln_one() ensures r_ln(1real) == 0real;
 pub axiom fn ax_minmax() ensures r_minv() < 0real < r_maxv();
+pub broadcast axiom fn ax_epsilon() ensures 0real < #[trigger] r_epsilon() < 1real;
+pub broadcast axiom fn ax_min_positive() ensures 0real < #[trigger] r_min_positive() < 1real;
 pub axiom fn ax_signum0() ensures r_signum0() == 1real || r_signum0() == -1real;
 // binary entropy H(p) = -(p log2 p + (1-p) log2(1-p)) lies in [0,1] for 0 < p < 1; and 0*log2(0) = 0 (the code patches NaN to 0)
 pub axiom fn ax_entropy(p: real) ensures 0real < p < 1real ==> 0real <= -(p * r_log2(p) + (1real - p) * r_log2(1real - p)) <= 1real;
 pub axiom fn ax_log2_one() ensures r_log2(1real) == 0real;
-pub broadcast group group_shim { ax_exp_pos, ax_exp_neg, ax_exp_nonpos, ax_cos_bound, ax_sin_bound, ax_tanh, ax_sqrt, ax_powi2 }
+pub broadcast group group_shim { ax_epsilon, ax_min_positive, ax_exp_pos, ax_exp_neg, ax_exp_nonpos, ax_cos_bound, ax_sin_bound, ax_tanh, ax_sqrt, ax_powi2 }
 //@@LITERAL_AXIOMS@@
 
 // ---- the crate's trait `View`, with its contract ----
